@@ -208,13 +208,18 @@ impl<'rt> Eval<'rt> for Value {
                 let tail = mk_box(tail.as_ref().clone().eval(runtime));
                 Step::Done(ConsN(items, tail).into())
             }
-            | Value::Proj(Proj(head, position)) => {
+            | Value::Proj(Proj(head, index)) => {
                 let head = head.as_ref().clone().eval(runtime);
-                let projected = head
-                    .into_product_fields()
-                    .into_iter()
-                    .nth(position)
-                    .expect("type-checked product projection must have a matching field");
+                let mut fields = head.into_product_fields();
+                assert!(
+                    index.position < fields.len(),
+                    "type-checked product projection must have a matching field"
+                );
+                let projected = if index.is_last {
+                    SemValue::from_product_fields(fields.split_off(index.position))
+                } else {
+                    fields.swap_remove(index.position)
+                };
                 Step::Done(projected)
             }
             | Value::Lit(lit) => Step::Done(lit.into()),
